@@ -33,7 +33,8 @@ def tensor_grad(Qs, g):
   return G
 
 
-def project_ds(runner, k, ndim):
+def project_ds(runner, k, ndim, naxes=None):
+  naxes = naxes or ndim          # number of preconditioned axes: the root exponent is 2 * naxes
   from precondition import distributed_shampoo as ds
   hs = runner.host_state()
   out = []
@@ -43,8 +44,8 @@ def project_ds(runner, k, ndim):
       out.append({"dense": True})      # axis too small to sketch: ordinary Shampoo statistics (not judged here)
       continue
     V, lam, inv, const, tail, hz = [np.asarray(x) for x in ds._fd_low_rank_unpack(jnp.asarray(P), k)]
-    out.append({"V": V, "lam": lam, "tail": tail, "arg": fc.inv_to_arg(inv, 2 * ndim),
-                "targ": fc.inv_to_arg(const, 2 * ndim), "hz": bool(hz),
+    out.append({"V": V, "lam": lam, "tail": tail, "arg": fc.inv_to_arg(inv, 2 * naxes),
+                "targ": fc.inv_to_arg(const, 2 * naxes), "hz": bool(hz),
                 "inv": np.asarray(inv, np.float64), "const": float(const)})
   return out
 
@@ -104,16 +105,17 @@ def handle(job):
         G = tensor_grad(Qs, st["g"])
         G32 = G.astype(np.float32)
         u = runner.step({"p0": jnp.asarray(G32)})
-        projs = project_ds(runner, k, ndim) if impl == "dsrun" else project_tf(runner, ndim)
-        if len(projs) != ndim:
-          raise core.MachineryError(f"expected {ndim} sketches, found {len(projs)}")
+        nexp = ndim - 1 if (impl == "dsrun" and o.get("ptype") == "INPUT") else ndim
+        projs = project_ds(runner, k, ndim, nexp) if impl == "dsrun" else project_tf(runner, ndim)
+        if len(projs) != nexp:
+          raise core.MachineryError(f"expected {nexp} sketches, found {len(projs)}")
         # well-posed only where the complement of the sketch has a definite weight: with escaped mass 0 and no
         # ridge the stored complement root is (float residue)^(-1/p) ~ 1e3..1e4 and amplifies the float32
         # rounding of the gradient itself (observed: direction decided by noise)
         e0 = fc.Exp(st, shape[0], cfg["bd"])
         posed = e0.t > 1e-3 * e0.scale
         if (impl == "dsrun" and not job.get("mixed") and o.get("beta1", 0.0) == 0.0 and si >= o["Start"]
-            and np.any(G32) and posed and not any(pr.get("dense") for pr in projs)):
+            and np.any(G32) and posed and not any(pr.get("dense") for pr in projs) and len(projs) == ndim):
           # the emitted update (no momentum, no weight decay; grafting only rescales) must point along the
           # gradient preconditioned by the roots stored at this very step (P = 1, replicated mode)
           uu = -np.asarray(runner.host_update(u)["p0"], np.float64)
